@@ -306,7 +306,12 @@ class Session:
             case 0x01:
                 self.handle_tls_client_hello(record)
             case 0x02:
-                self.handle_tls_server_hello(record)
+                try:
+                    self.handle_tls_server_hello(record)
+                except IndexError:
+                    # truncated / damaged ServerHello: no keys for this handshake
+                    logging.warning(f"Could not parse ServerHello")
+                    self.can_decrypt = False
             # ignore the others for now (in TLS 1.3 in application Records)
             case _:
                 try:
